@@ -208,32 +208,31 @@ theorem pyConstraint_upper_partial {ev : Leaf → Bool} {G : Leaf → Prop} (S :
 
 /-- **exactness for python-only markers**: for a marker over `python_version` / `python_full_version` only, the
 range admits exactly the interpreters on which the marker holds.  The shape of the DNF is C07's unconditional
-`dnf_isDnf`; what is assumed about it: it is not the empty marker when `only` did not already answer empty
-(`hne` — otherwise the code returns the universal range for an unsatisfiable marker) and it mentions python
-variables only (`hpy`).  Other hypotheses as in the one-sided part (both directions of `split_sound` are used). -/
+`dnf_isDnf`; what is assumed about it: it mentions python variables only (`hpy`).  (An empty DNF is answered with
+the empty constraint since the repair recorded under C11; see `unsatisfiable_marker_found_by_dnf_gives_empty`.)  Other hypotheses as in the one-sided part (both directions of `split_sound` are used). -/
 theorem pyConstraint_exact_partial {ev : Leaf → Bool} {G : Leaf → Prop} (S : LeafSpec ev G) (X Y Z : Nat)
     (m : M) (g : VC) (hg : M.Good G m) (hv : ∀ n ∈ M.vars m, pyNames.contains n = true)
     (hL : ∀ l, G l → convKey l.name = pyKey → LeafClause ev X Y Z l)
-    (hne : ∀ d, dnf defaultFuel [] m = .ok d → d ≠ .empty)
     (hpy : ∀ d, dnf defaultFuel [] m = .ok d → ∀ l ∈ M.leaves d, convKey l.name = pyKey)
     (h : gpc m = .ok g) : M.sem ev m = g.allowsPlain (pyV X Y Z) :=
-  gpc_exact S X Y Z m g hg hv hL (splitSound_holds X Y Z) hne hpy h
+  gpc_exact S X Y Z m g hg hv hL (splitSound_holds X Y Z) hpy h
 
-/-- **why `hne` is a hypothesis** (counterexample to the unrestricted exactness statement): when
-`marker.only("python_version", "python_full_version")` is neither universal nor empty but `dnf(marker)` is the
-empty marker, `get_python_constraint_from_marker` answers the *universal* range although the marker holds on no
-environment (`convert_markers` has no `python_version` entry at all, read as "python_version is arbitrary").
-Witness, replayed on the implementation and on the model:
+/-- **regression statement for a repaired defect**: when `marker.only("python_version", "python_full_version")`
+is neither universal nor empty but `dnf(marker)` is the empty marker, `get_python_constraint_from_marker` answers
+the empty constraint, as the marker holds on no environment.  Before the repair it answered the *universal* range
+(`convert_markers` has no `python_version` entry at all for an empty DNF, which was read as "python_version is
+arbitrary"); exactness then needed the hypothesis that the DNF is not empty.  Witness of the former behaviour,
+replayed on the implementation and on the model:
 `MultiMarker.of(parse_marker('python_version < "3.7" or python_version >= "3.9"'),
-parse_marker('python_version == "3.7" or python_version == "3.8"'))` — `only(…)` is the marker itself,
-`dnf` is `<empty>`, the result is `*`.  Markers that `parse_marker` / `intersect` / `union` return are normalised
-through `dnf`, so the case needs `MultiMarker.of` (or `only`) applied to unions. -/
-theorem counterexample_universal_range_for_unsatisfiable_marker {ev : Leaf → Bool} {G : Leaf → Prop}
+parse_marker('python_version == "3.7" or python_version == "3.8"'))` — `only(…)` is the marker itself, `dnf` is
+`<empty>`, the result was `*`.  (Markers that `parse_marker` / `intersect` / `union` return are normalised through
+`dnf`, so the case needs `MultiMarker.of` or `only` applied to unions.) -/
+theorem unsatisfiable_marker_found_by_dnf_gives_empty {ev : Leaf → Bool} {G : Leaf → Prop}
     (S : LeafSpec ev G) (m pm : M) (hg : M.Good G m)
     (ho : m.only Gen.pythonVersionMarkers.reverse = .ok pm) (h1 : pm.isAny = false) (h2 : pm.isEmpty = false)
     (hd : dnf defaultFuel [] m = .ok .empty) (p : Version) :
-    gpc m = .ok VC.any ∧ M.sem ev m = false ∧ VC.any.allowsPlain p = true :=
-  ⟨gpc_any_of_dnf_empty m pm ho h1 h2 hd, by rw [← (dnf_sound S hg hd).2]; rfl, any_allowsPlain p⟩
+    gpc m = .ok .empty ∧ M.sem ev m = false ∧ VC.empty.allowsPlain p = false :=
+  ⟨gpc_empty_of_dnf_empty m pm ho h1 h2 hd, by rw [← (dnf_sound S hg hd).2]; rfl, empty_allowsPlain p⟩
 
 /-- the hypotheses are satisfiable on a concrete object: a python item is a `LeafClause` as soon as its truth is
 the reference value of the item (here `python_version >= "3.8"` on CPython 3.8.1), and a one-leaf marker is a
@@ -294,9 +293,8 @@ simplifier mentions no new variable, relative to `S`). -/
 theorem pyConstraint_exact_validate_partial (E : Env) (X Y Z : Nat) (hE : EnvPy E X Y Z)
     (S : LeafSpec (leafEval E) (PyG E)) (m : M) (g : VC) (hg : M.Good (PyG E) m)
     (hvars : ∀ n ∈ M.vars m, pyNames.contains n = true)
-    (hne : ∀ d, dnf defaultFuel [] m = .ok d → d ≠ .empty)
     (h : gpc m = .ok g) : M.validate E m = .ok (g.allowsPlain (pyV X Y Z)) :=
-  gpc_exact_validate E X Y Z hE S m g hg hvars hne h
+  gpc_exact_validate E X Y Z hE S m g hg hvars h
 
 /-- **conjunctions with `in` lists**: every pair contributes its alternatives (one clause for a comparison, one
 `X.Y.*` per listed version for `in`), and the conjunction is printed as all choices of one alternative per pair, in
@@ -321,9 +319,8 @@ theorem pyConstraint_upper_validate_lists_partial (E : Env) (X Y Z : Nat) (hE : 
 theorem pyConstraint_exact_validate_lists_partial (E : Env) (X Y Z : Nat) (hE : EnvPy E X Y Z)
     (S : LeafSpec (leafEval E) (PyGL E)) (m : M) (g : VC) (hg : M.Good (PyGL E) m)
     (hvars : ∀ n ∈ M.vars m, pyNames.contains n = true)
-    (hne : ∀ d, dnf defaultFuel [] m = .ok d → d ≠ .empty)
     (h : gpc m = .ok g) : M.validate E m = .ok (g.allowsPlain (pyV X Y Z)) :=
-  gpc_exact_validate_lists E X Y Z hE S m g hg hvars hne h
+  gpc_exact_validate_lists E X Y Z hE S m g hg hvars h
 
 /-- the invariant `PyG` on a concrete leaf: `python_version >= "3.8"` on CPython 3.8.1 -/
 example : PyG env381 (.single ⟨"python_version", ">=", "3.8", false, .ver (.single (.rng ⟨some (v [3, 8]), none, true, false⟩))⟩) :=
